@@ -52,7 +52,7 @@ def main():
     os._exit(rc)
 
 
-ALIAS_PROPS = ('C01', 'C02', 'C03', 'C06', 'C29', 'C30')
+ALIAS_PROPS = ('C01', 'C02', 'C03', 'C06', 'C29', 'C30', 'C34')
 
 
 def attributable_to_repo(pid, text):
